@@ -75,7 +75,11 @@ def _rvalue(rv, lo):
 def _stmt(s, lo):
     k = s["k"]
     if k == "assign":
-        return {"k": "assign", "lhs": _place(s["lhs"], lo), "rv": _rvalue(s["rv"], lo), "sp": s["sp"]}
+        r = {"k": "assign", "lhs": _place(s["lhs"], lo), "rv": _rvalue(s["rv"], lo), "sp": s["sp"]}
+        for fl in ("consumed", "inl"):
+            if fl in s:
+                r[fl] = s[fl]
+        return r
     if k in ("live", "dead"):
         return {"k": k, "l": s["l"] + lo}
     r = dict(s)
@@ -157,6 +161,42 @@ def _direct_effect(F, c, ltraits):
     return False
 
 
+# ----------------------------------------------------------------------------- Option/Result combinators
+# name -> (enum, A-variant action, B-variant action); A = Some/Ok (payload x), B = None/Err (payload e for Err)
+#   ("wrap", Variant, src) dest = Variant(src) | ("val", src) dest = src | ("none",) dest = None | ("bool", v)
+#   src: "x" payload of the taken variant | ("call", i) closure argument i applied to the payload (or to nothing) | ("arg", i)
+COMBINATORS = {
+    "std::option::Option::map": ("opt", ("wrap", "Some", ("call", 1)), ("none",)),
+    "std::option::Option::and_then": ("opt", ("val", ("call", 1)), ("none",)),
+    "std::option::Option::unwrap_or_else": ("opt", ("val", "x"), ("val", ("call0", 1))),
+    "std::option::Option::ok_or_else": ("opt", ("wrap", "Ok", "x"), ("wrap", "Err", ("call0", 1))),
+    "std::option::Option::or_else": ("opt", ("wrap", "Some", "x"), ("val", ("call0", 1))),
+    "std::option::Option::map_or": ("opt", ("val", ("call", 2)), ("val", ("arg", 1))),
+    "std::option::Option::map_or_else": ("opt", ("val", ("call", 2)), ("val", ("call0", 1))),
+    "std::option::Option::is_some_and": ("opt", ("val", ("call", 1)), ("bool", False)),
+    "std::option::Option::is_none_or": ("opt", ("val", ("call", 1)), ("bool", True)),
+    "std::result::Result::map": ("res", ("wrap", "Ok", ("call", 1)), ("wrap", "Err", "x")),
+    "std::result::Result::map_err": ("res", ("wrap", "Ok", "x"), ("wrap", "Err", ("call", 1))),
+    "std::result::Result::and_then": ("res", ("val", ("call", 1)), ("wrap", "Err", "x")),
+    "std::result::Result::or_else": ("res", ("wrap", "Ok", "x"), ("val", ("call", 1))),
+    "std::result::Result::unwrap_or_else": ("res", ("val", "x"), ("val", ("call", 1))),
+    "std::result::Result::map_or_else": ("res", ("val", ("call", 2)), ("val", ("call", 1))),
+    "std::result::Result::map_or": ("res", ("val", ("call", 2)), ("val", ("arg", 1))),
+    "std::result::Result::is_ok_and": ("res", ("val", ("call", 1)), ("bool", False)),
+    "std::result::Result::is_err_and": ("res", ("bool", False), ("val", ("call", 1))),
+}
+ENUMS = {"opt": ("std::option::Option", [["0", "None"], ["1", "Some"]], "Some", "None"),
+         "res": ("std::result::Result", [["0", "Ok"], ["1", "Err"]], "Ok", "Err")}
+
+
+def _action_closure_args(act):
+    out = []
+    for x in act:
+        if isinstance(x, tuple) and x and x[0] in ("call", "call0"):
+            out.append(x[1])
+    return out
+
+
 class Normalizer:
     def __init__(self, F):
         self.F = F
@@ -167,6 +207,7 @@ class Normalizer:
         self.kept_roles = self._roles()
         self.log = []
         self.spliced = set()
+        self.closure_expansions = []
 
     # -- transitive "performs an effect the rules care about"
     def effectful(self, root, _stack=None):
@@ -281,12 +322,16 @@ class Normalizer:
                 j = copy.deepcopy(body.j)
                 for blk in j["blocks"]:
                     blk.setdefault("ctx", [])
+                cur = Body(F, j)
+                sites = self._sites(cur, host_root, callee_form)     # statements of the copy, not of the original
             changed = False
             for site in sites:
                 if len(j["blocks"]) > MAXBLOCKS:
                     break
                 if site[0] == "sync":
                     changed |= self._splice_sync(j, site[1], site[2])
+                elif site[0] == "comb":
+                    changed |= self._expand_combinator(j, site[1], site[2], site[3])
                 else:
                     changed |= self._splice_poll(j, site[1], site[2], site[3], site[4])
             if not changed:
@@ -312,6 +357,34 @@ class Normalizer:
             if len(ctx) >= MAXDEPTH or blk.get("noinline"):
                 continue
             cal = c.resolved or c.name
+            if c.name in COMBINATORS and not c.noise:
+                spec = COMBINATORS[c.name]
+                need = sorted(set(_action_closure_args(spec[1]) + _action_closure_args(spec[2])))
+                if X is None:
+                    X = mir.ExprBuilder(F)
+                clos = {}
+                okc = len(c.args) > max(need)
+                for i in need if okc else ():
+                    e = mir.strip(X.operand(cur, c.args[i]))
+                    if e[0] == "agg" and e[1].startswith("closure:") and e[4][0] == cur.cdef:
+                        d = e[1][len("closure:"):]
+                        cb = F.by_cdef.get(d)
+                        st = None
+                        for s_ in cur.blocks[e[4][1]]["s"]:
+                            if s_["k"] == "assign" and s_["rv"]["k"] == "agg" and canon(s_["rv"].get("def") or "") == d:
+                                st = s_
+                        if cb is None or cb.coroutine or st is None or d in ctx:
+                            okc = False
+                        else:
+                            clos[i] = (self.norm(cb, True), st)
+                    elif e[0] == "fnitem" and e[1] in F.by_cdef and F.by_cdef[e[1]].kind in ("Fn", "AssocFn") and not e[1].startswith("<") \
+                            and not mir.derive_generated(F.by_cdef[e[1]].span) and e[1] not in ctx and e[1] != host_root:
+                        clos[i] = (self.norm(F.by_cdef[e[1]], True), None)
+                    else:
+                        okc = False
+                if okc:
+                    out.append(("comb", c.bb, spec, clos))
+                continue
             if cal in F.by_cdef and not c.name.endswith("Future::poll"):
                 if cal in ctx or cal == host_root or self.kept(host_root, cal):
                     continue
@@ -388,6 +461,95 @@ class Normalizer:
                 nb["s"].append({"k": "assign", "lhs": dest, "rv": {"k": "use", "op": {"k": "move", "pl": {"l": lo, "p": []}}}, "sp": nb["t"]["sp"], "inl": "ret"})
                 nb["t"] = {"k": "goto", "t": target, "sp": nb["t"]["sp"]} if target is not None else {"k": "unreachable", "sp": nb["t"]["sp"]}
         self.log.append((j["def"], "sync", cb.cdef))
+        return True
+
+    def _new_local(self, j, ty):
+        j["locals"].append({"ty": ty})
+        return len(j["locals"]) - 1
+
+    def _new_block(self, j, ctx):
+        j["blocks"].append({"s": [], "t": {"k": "unreachable", "sp": {}}, "ctx": list(ctx)})
+        return len(j["blocks"]) - 1
+
+    def _call_closure(self, j, from_bb, cb, st, payload, ret_local, cont_bb, sp):
+        """splice closure/fn body `cb` after block from_bb: bind its environment and parameter, store its result in
+        ret_local and continue at cont_bb"""
+        lo, bo = self._append(j, cb, [cb.cdef], from_bb)
+        blk = j["blocks"][from_bb]
+        first_param = 1
+        if st is not None:
+            blk["s"].append({"k": "assign", "lhs": {"l": lo + 1, "p": []}, "rv": st["rv"], "sp": sp, "inl": "env"})
+            first_param = 2
+        if payload is not None and cb.arg_count >= first_param:
+            blk["s"].append({"k": "assign", "lhs": {"l": lo + first_param, "p": []}, "rv": {"k": "use", "op": payload}, "sp": sp, "inl": "arg"})
+        blk["t"] = {"k": "goto", "t": bo, "sp": sp, "inl": cb.cdef}
+        for k in range(bo, len(j["blocks"])):
+            nb = j["blocks"][k]
+            if nb["t"]["k"] == "return" and not nb.get("cleanup"):
+                nb["s"].append({"k": "assign", "lhs": {"l": ret_local, "p": []}, "rv": {"k": "use", "op": {"k": "move", "pl": {"l": lo, "p": []}}}, "sp": nb["t"]["sp"], "inl": "ret"})
+                nb["t"] = {"k": "goto", "t": cont_bb, "sp": nb["t"]["sp"]}
+        if st is not None:
+            st["consumed"] = True
+
+    def _expand_combinator(self, j, bb, spec, clos):
+        """`dest = o.map(f)` etc. rewritten as the match it stands for, with the closure bodies spliced into the arms"""
+        blk = j["blocks"][bb]
+        t = blk["t"]
+        if t["k"] != "call" or t["t"] is None:
+            return False
+        enum, actA, actB = spec
+        adt, variants, vA, vB = ENUMS[enum]
+        sp = t["sp"]
+        ctx = blk.get("ctx", [])
+        dest, target = t["dest"], t["t"]
+        args = t["args"]
+        O = self._new_local(j, "?combinator-subject")
+        D = self._new_local(j, "isize")
+        blk["s"].append({"k": "assign", "lhs": {"l": O, "p": []}, "rv": {"k": "use", "op": args[0]}, "sp": sp, "inl": "subject"})
+        blk["s"].append({"k": "assign", "lhs": {"l": D, "p": []}, "rv": {"k": "discr", "pl": {"l": O, "p": []}, "ty": adt, "variants": variants}, "sp": sp, "inl": "discr"})
+        bA = self._new_block(j, ctx)
+        bB = self._new_block(j, ctx)
+        codeA = [v for v, n in variants if n == vA][0]
+        codeB = [v for v, n in variants if n == vB][0]
+        blk["t"] = {"k": "switch", "op": {"k": "move", "pl": {"l": D, "p": []}}, "ty": "isize", "arms": [[codeA, bA], [codeB, bB]], "otherwise": bB, "sp": sp, "inl": "combinator"}
+        self.log.append((j["def"], "combinator", t["fn"].get("def")))
+
+        def payload(v):
+            if enum == "opt" and v == "None":
+                return None
+            return {"k": "move", "pl": {"l": O, "p": [{"k": "downcast", "v": v}, {"k": "field", "i": 0, "n": "0", "o": adt, "v": v, "t": "?"}]}}
+
+        def emit(b0, act, v):
+            pay = payload(v)
+
+            def source(src, cur_bb):
+                """returns (operand, block to continue building in)"""
+                if src == "x":
+                    return pay, cur_bb
+                if src[0] == "arg":
+                    return args[src[1]], cur_bb
+                cbody, st = clos[src[1]]
+                R = self._new_local(j, "?closure-result")
+                cont = self._new_block(j, ctx)
+                self._call_closure(j, cur_bb, cbody, st, pay if src[0] == "call" else None, R, cont, sp)
+                return {"k": "move", "pl": {"l": R, "p": []}}, cont
+            cur_bb = b0
+            if act[0] == "none":
+                rv = {"k": "agg", "ak": "adt", "adt": "std::option::Option", "variant": "None", "fields": [], "ops": [], "def": None, "ety": None}
+            elif act[0] == "bool":
+                rv = {"k": "use", "op": {"k": "const", "ty": "bool", "int": "1" if act[1] else "0", "v": "true" if act[1] else "false"}}
+            elif act[0] == "val":
+                op, cur_bb = source(act[1], cur_bb)
+                rv = {"k": "use", "op": op}
+            else:
+                op, cur_bb = source(act[2], cur_bb)
+                wadt = "std::option::Option" if act[1] in ("Some", "None") else "std::result::Result"
+                rv = {"k": "agg", "ak": "adt", "adt": wadt, "variant": act[1], "fields": ["0"], "ops": [op], "def": None, "ety": None}
+            fin = j["blocks"][cur_bb]
+            fin["s"].append({"k": "assign", "lhs": dest, "rv": rv, "sp": sp, "inl": "combinator-result"})
+            fin["t"] = {"k": "goto", "t": target, "sp": sp}
+        emit(bA, actA, vA)
+        emit(bB, actB, vB)
         return True
 
     def _splice_poll(self, j, bb, cb, st, croot):
@@ -480,7 +642,8 @@ def normalize(F):
 
 def _absorbed(F, N):
     """bodies whose every use has been spliced into a host: they are analysed as part of their hosts only"""
-    cand = set(N.spliced)
+    cand = {d for d in N.spliced if d in F.by_def and (F.by_def[d].kind in ("Fn", "AssocFn") or F.by_def[d].coroutine)}
+    clos = {d for d in N.spliced if d in F.by_def and d not in cand}
     roots = {F.root_of(F.by_def[d]) for d in cand if d in F.by_def}
 
     def refs(root, dead):
@@ -516,4 +679,18 @@ def _absorbed(F, N):
         if not drop:
             break
         dead_roots -= drop
-    return {d for d in cand if d in F.by_def and F.root_of(F.by_def[d]) in dead_roots}
+    dead = {d for d in cand if d in F.by_def and F.root_of(F.by_def[d]) in dead_roots}
+    # closures spliced into the arms of expanded combinators: absorbed when every construction site was consumed
+    for _ in range(3):
+        for d in sorted(clos - dead):
+            sites = []
+            for b in F.bodies:
+                if b.def_ in dead or b.kind not in ("Fn", "AssocFn", "Closure", "SyntheticCoroutineBody"):
+                    continue
+                for blk in b.blocks:
+                    for st in blk["s"]:
+                        if st["k"] == "assign" and st["rv"]["k"] == "agg" and st["rv"].get("def") == d and st.get("inl") != "env":
+                            sites.append(st)
+            if sites and all(st.get("consumed") for st in sites):
+                dead.add(d)
+    return dead
